@@ -1,0 +1,163 @@
+//! Verification hooks (cargo feature `verif`).
+//!
+//! Everything in this module is compiled only with `--features verif`. The
+//! hooks may *trigger* real VM code (a collection) and *read* real VM state;
+//! they never re-implement or alter it. All hook state lives in thread-locals
+//! so that no existing struct, derive or constructor is touched.
+use crate::vm::Vm;
+use crate::vm::environment::GlobalEnvironment;
+use crate::vm::heap::Heap;
+use crate::vm::stack::Stack;
+use crate::vm::vcell::VCell;
+use std::cell::{Cell, RefCell};
+
+/// When the VM is to collect regardless of heap utilisation.
+#[derive(Clone, Debug)]
+pub enum GcSchedule {
+    /// Never force a collection.
+    Never,
+    /// Force a collection before every instruction `n` with `n % k == phase`.
+    Every { k: u64, phase: u64 },
+    /// Force a collection before exactly the instructions listed (ascending).
+    At(Vec<u64>),
+}
+
+type AfterGc = Box<dyn FnMut(&Vm)>;
+
+thread_local! {
+    static ICOUNT: Cell<u64> = const { Cell::new(0) };
+    static SCHEDULE: RefCell<GcSchedule> = const { RefCell::new(GcSchedule::Never) };
+    static FORCE: Cell<bool> = const { Cell::new(false) };
+    static GC_COUNT: Cell<u64> = const { Cell::new(0) };
+    static AFTER_GC: RefCell<Option<AfterGc>> = const { RefCell::new(None) };
+    static SP_HW: Cell<usize> = const { Cell::new(0) };
+    static SLICE_END_GC: Cell<bool> = const { Cell::new(false) };
+}
+
+/// Reset every hook to its inert state.
+pub fn reset() {
+    ICOUNT.with(|c| c.set(0));
+    SCHEDULE.with(|s| *s.borrow_mut() = GcSchedule::Never);
+    FORCE.with(|c| c.set(false));
+    GC_COUNT.with(|c| c.set(0));
+    AFTER_GC.with(|c| *c.borrow_mut() = None);
+    SP_HW.with(|c| c.set(0));
+    SLICE_END_GC.with(|c| c.set(false));
+}
+
+pub fn set_schedule(schedule: GcSchedule) {
+    SCHEDULE.with(|s| *s.borrow_mut() = schedule);
+}
+
+pub fn set_after_gc(f: Option<AfterGc>) {
+    AFTER_GC.with(|c| *c.borrow_mut() = f);
+}
+
+/// Instructions executed since the last `reset_icount`.
+pub fn icount() -> u64 {
+    ICOUNT.with(|c| c.get())
+}
+
+pub fn reset_icount() {
+    ICOUNT.with(|c| c.set(0));
+}
+
+/// Number of real collections (mark + sweep) performed.
+pub fn gc_count() -> u64 {
+    GC_COUNT.with(|c| c.get())
+}
+
+pub fn sp_high_water() -> usize {
+    SP_HW.with(|c| c.get())
+}
+
+pub fn reset_sp_high_water() {
+    SP_HW.with(|c| c.set(0));
+}
+
+/// If set, the collection `run_count` performs when a slice ends is forced.
+pub fn set_slice_end_gc(on: bool) {
+    SLICE_END_GC.with(|c| c.set(on));
+}
+
+pub(crate) fn slice_end_gc() -> bool {
+    SLICE_END_GC.with(|c| c.get())
+}
+
+pub(crate) fn force_gc() -> bool {
+    FORCE.with(|c| c.get())
+}
+
+pub(crate) fn set_force_gc(on: bool) {
+    FORCE.with(|c| c.set(on));
+}
+
+pub(crate) fn clear_force_gc() {
+    FORCE.with(|c| c.set(false));
+}
+
+pub(crate) fn note_sp(sp: usize) {
+    SP_HW.with(|c| {
+        if sp > c.get() {
+            c.set(sp)
+        }
+    });
+}
+
+/// Called by `run_count` immediately before each instruction.
+pub(crate) fn before_instruction(vm: &mut Vm) {
+    let n = ICOUNT.with(|c| {
+        let n = c.get();
+        c.set(n + 1);
+        n
+    });
+    let due = SCHEDULE.with(|s| match &*s.borrow() {
+        GcSchedule::Never => false,
+        GcSchedule::Every { k, phase } => *k > 0 && n % *k == *phase % *k,
+        GcSchedule::At(points) => points.binary_search(&n).is_ok(),
+    });
+    if due {
+        vm.verif_collect_now();
+    }
+}
+
+/// Called at the end of `run_gc`, which is only reached by real collections.
+pub(crate) fn after_gc(vm: &Vm) {
+    GC_COUNT.with(|c| c.set(c.get() + 1));
+    let cb = AFTER_GC.with(|c| c.borrow_mut().take());
+    if let Some(mut cb) = cb {
+        cb(vm);
+        AFTER_GC.with(|c| {
+            let mut slot = c.borrow_mut();
+            if slot.is_none() {
+                *slot = Some(cb);
+            }
+        });
+    }
+}
+
+impl Vm {
+    /// Run the real collector now, regardless of heap utilisation.
+    pub fn verif_collect_now(&mut self) {
+        set_force_gc(true);
+        self.run_gc();
+        clear_force_gc();
+    }
+
+    pub fn verif_heap(&self) -> &Heap {
+        &self.heap
+    }
+
+    pub fn verif_stack(&self) -> &Stack {
+        &self.stack
+    }
+
+    pub fn verif_globenv(&self) -> &GlobalEnvironment {
+        &self.globenv
+    }
+
+    /// (acc, ep, ip, bp)
+    pub fn verif_registers(&self) -> (VCell, usize, (usize, usize), usize) {
+        (self.acc.clone(), self.ep, self.ip, self.bp)
+    }
+}
